@@ -195,6 +195,7 @@ class Table:
 
     def __init__(self, data:Union[Mapping, Sequence[Mapping], Sequence[Sequence]] = (), columns: Sequence[str] = (), indexes: Sequence[str]= ()):
         self._columns = tuple(columns) or tuple(data)
+        self._indexes = ()
         self._lohis   = None
 
         data_is_view            = isinstance(data,View)
@@ -231,6 +232,8 @@ class Table:
         if data_is_empty:
             return self
 
+        n_old = len(self)
+
         if data_is_sequence_of_dicts:
             n_dicts = len(data)
             data = {k:[d.get(k,Missing) for d in data] for k in set().union(*(d.keys() for d in data))}
@@ -266,7 +269,33 @@ class Table:
 
         if self._lohis: self._lohis = {}
 
+        if self._indexes:
+            #an indexed table promises rows in index order. Rows inserted in order (e.g., by
+            #TransactionResult) only cost a look at the new rows, anything else is sorted again.
+            in_order = self._in_index_order(max(n_old-1,0))
+            indexes,self._indexes = self._indexes,()
+            if in_order: self._indexes = indexes
+            elif in_order is False:
+                backup = {k:list(v) for k,v in self._data.items()}
+                try:
+                    self.index(*indexes)
+                except TypeError:
+                    for k,v in backup.items(): self._data[k][:] = v
+            #if the values can't be ordered (in_order is None or the sort raised) the table is no longer indexed
+
         return self
+
+    def _in_index_order(self, start:int) -> Optional[bool]:
+        #are rows start,start+1,... in lexicographic order of the index columns (None if they can't be compared)
+        cols = [self._data[c] for c in self._indexes]
+        try:
+            for i in range(start+1,len(self)):
+                for col in cols:
+                    if col[i-1] < col[i]: break
+                    if col[i] < col[i-1]: return False
+        except TypeError:
+            return None
+        return True
 
     def index(self, *indx) -> 'Table':
         if not indx: return self
